@@ -32,7 +32,7 @@ STYLES = ('snake', 'camel', 'pascal', 'kebab', 'scream')
 NAMES = ('my_field', 'id_num', 'url_path')
 FIELD_VARIANTS = (
     'plain', 'alias1', 'alias2', 'in_names', 'in_names+py', 'rename', 'out_name', 'alias+out', 'default', 'kw_default',
-    'exclude', 'kw_required', 'factory', 'init_false',
+    'exclude', 'kw_required', 'factory', 'init_false', 'rename+out', 'in_names+out',
 )
 CLASS_VARIANTS = (
     {}, {'allow_extra': True}, {'in_format': ('tuple',)}, {'in_format': ('struct', 'tuple')}, {'in_format': ('tuple', 'struct'), 'out_format': 'tuple'},
@@ -56,6 +56,8 @@ def make_field(idx, variant):
     elif variant == 'rename': f.rename = f"ren{idx}"
     elif variant == 'out_name': f.out_name = f"out{idx}"
     elif variant == 'alias+out': f.aliases, f.out_name = (a1,), f"out{idx}"
+    elif variant == 'rename+out': f.rename, f.out_name = f"ren{idx}", f"OUT{idx}"
+    elif variant == 'in_names+out': f.in_names, f.out_name = (a1,), f"out{idx}"
     elif variant == 'default': f.dflt, f.dval = 'val', dv
     elif variant == 'kw_default': f.dflt, f.dval, f.kw_only = 'val', dv, True
     elif variant == 'exclude': f.dflt, f.dval, f.exclude = 'val', dv, True
